@@ -325,8 +325,11 @@ def run_A(rep, K, tmp, items, secs):
         what = 'missed' if code == 1 else 'duplicate'
         near = [x for x in res if abs(x[0] - tt[0]) < 1e-4 and abs(x[1] - tt[1]) < 1e-4]
         key = miss_key(d1, d2, what, tt)
-        if key.startswith('subdivision-missed-crossing') and size < 0.1 and \
+        if (key.startswith('subdivision-missed-crossing') or key.startswith('subdivision-prunes-zero-width-box')) \
+                and what == 'missed' and size < 0.1 and \
                 any(abs(x[0] - tt[0]) < 2e-3 and abs(x[1] - tt[1]) < 2e-3 for x in res):
+            # (a pruned crossing returns nothing near it; a NEARBY report is the resolution class whatever the
+            #  family of the pair — seed 6 drew an axis-parallel straight cubic of size 0.008)
             # reported, but further than 1e-4 away: the absolute stopping tolerance (box area 1e-12)
             # is too coarse for curves of this size (same class as in C11)
             key = ic.pinned_key('subdivision-residual-small-scale', ic.detect_variants()['rel_fixed'])
